@@ -447,6 +447,11 @@ func step(w []string, line string) string {
 		case "close":
 			b.Clients[w[1]].CloseSocket()
 			return collect(true, false, w[1])
+		case "deafen":
+			// injected fault: from now on every write of the broker to this connection fails; it stays
+			// connected and subscribed. Nobody else may notice.
+			b.Clients[w[1]].FailWrites()
+			return "ok"
 		case "dump":
 			nodes, pairs := b.Svc.VerifTrie().VerifTrieDump()
 			ps := make([]string, len(pairs))
